@@ -243,6 +243,14 @@ Cut(i) ==
   /\ cuts' = cuts + 1 /\ last' = <<"Cut", "-", i>>
   /\ UNCHANGED <<mgr, versions, ctr, cgen, ctrOf, mq, held, nlinks, accepts, sel, lostq, stopReq, stopped, internal>>
 
+\* the Leader's connection monitor (TrafficTimer, C16) gives up on a silent peer: two ping intervals without an answer and
+\* Manager._signal_reconnect() disconnects the connection in use; the loss then arrives like any other
+MonitorDrop ==
+  /\ cuts < MaxCuts /\ mgr.L = "CONNECTED" /\ sel.L > 0 /\ links[sel.L].endst.L = "up" /\ ~stopReq.L
+  /\ links' = [links EXCEPT ![sel.L].endst.L = "closing"]
+  /\ cuts' = cuts + 1 /\ last' = <<"MonitorDrop", "L", sel.L>>
+  /\ UNCHANGED <<mgr, versions, ctr, cgen, ctrOf, mq, held, nlinks, accepts, sel, lostq, stopReq, stopped, internal>>
+
 \* side x's end of link i sees connectionLost (it was cut, it closed itself, or the peer's end closed)
 CanLose(i, x) == links[i].endst[x] \in {"cut", "closing"} \/ (links[i].endst[x] = "up" /\ links[i].endst[Peer(x)] \in {"closing", "down"})
 ObserveLoss(i, x) ==
@@ -269,6 +277,7 @@ Stop(x) ==
   /\ cuts' = cuts /\ last' = <<"Stop", x, 0>>
 
 Next == (\E x \in Sides : AppDilate(x) \/ VersionsArrive(x) \/ MailboxDeliver(x) \/ TurnAccept(x) \/ TurnLost(x) \/ Stop(x))
+        \/ MonitorDrop
         \/ (\E i \in LinkIds : TcpUp(i) \/ HsDone(i) \/ DeliverKcmF(i) \/ DeliverKcmL(i) \/ Cut(i)
                                \/ \E x \in Sides : ObserveLoss(i, x))
 Fair == WF_vars(\E x \in Sides : VersionsArrive(x) \/ MailboxDeliver(x) \/ TurnAccept(x) \/ TurnLost(x))
